@@ -386,6 +386,13 @@ func checkC10(c *Ctx) Meta {
 	c.Rule("C10-STOP", "an interrupted step is never taken for a completed one: on the plotting path the branch taken when the stop channel fires returns a provably non-nil error", 3)
 	c.Rule("C10-FRESH", "every window is computed into a freshly allocated (zeroed) cache: Update always reallocates, makeAvailableMemory always updates on success, every window write is preceded by it within its own round", 4)
 	c.Rule("C10-REMOVE", "map A is removed only after both passes returned nil (whose every normal exit has passed the final checkpoint and its Sync)", 2)
+	c.Rule("C10-SCAN", "a resumed or multi-window second pass computes what an uninterrupted one computes: every window considers every pair of map A (read from the start of map A, pair loop from 0)", 2)
+	c.aliasFrom, c.aliasTo = "C07-SCAN", "C10-SCAN"
+	c.Rule("C07-OWN", "", 0)
+	checkC07ScanOwn(c)
+	c.aliasFrom, c.aliasTo = "", ""
+	delete(c.Rules, "C07-OWN")
+	delete(c.Floors, "C07-OWN")
 	c.Rule("C10-KEEPER", "the keeper never takes an unfinished plot for a finished one: after a plot run the plotter moves the space to ready or mining only behind `Progress() >= 100` of the plotted space, evaluated after Plot returned", 2)
 	checkStep3(c, "C10-KEEPER", pkgCapacity, "capacity")
 	c.Rule("C10-READY", "readiness is derived from B's checkpoint: HashMapB.Progress compares checkpoint with volume; MassDBV1.Progress forwards it; NewWorkSpace stores Ready only under that flag; OpenDB loads map A whenever B is not final", 4)
